@@ -248,10 +248,35 @@ def r5_locators(cx):
     cx.ob("R5", "R5/InContainerFile.close", ok, g, "close records PackLocator(uuid, size = seek(End(0)) relative to the Skip origin, offset = position of the inner file at the Skip origin)")
 
 
+def r6_concat(cx):
+    """tools::concat copies every pack of every input container whole, under its own uuid"""
+    F = cx.F
+    f = F.one(name="tools::concat")
+    b = F.body(f)
+    op = b.calls(r"tools::open_pack::<")
+    it = b.calls(r"ContainerPack::iter$")
+    ap = b.calls(r"ContainerPackCreator::<.*>::add_pack::<")
+    cs = b.calls(r"Reader::create_stream$")
+    fz = b.calls(r"ContainerPackCreator::<.*>::finalize$")
+    ok = len(op) == 1 and len(it) == 1 and len(ap) == 1 and len(cs) == 1 and len(fz) == 1
+    if ok:
+        t = cs[0][1]
+        size_calls = [callee_str(x[1]) for x in b.origin_calls(t["args"][2], through_calls=False)]
+        whole = any(call_is(x[1], r"Offset::zero$") for x in b.origin_calls(t["args"][1])) and bool(size_calls) and all(re.search(r"Reader::size$", c) for c in size_calls) \
+            and not any(x[0] == "const" and isinstance(x[1], int) and not isinstance(x[1], bool) for x in b.origins(t["args"][2]))
+        nxt = [i for i, tt in b.calls(r"Iterator>::next$") if any(x == ("call", it[0][0]) for x in b.origins(tt["args"][0]))]
+        same_item = bool(nxt) and any(x[0] == "call" and x[1] in nxt for x in b.origins(ap[0][1]["args"][1])) and any(x == ("call", cs[0][0]) for x in b.origins(ap[0][1]["args"][2])) \
+            and any(x[0] == "call" and x[1] in nxt for x in b.origins(t["args"][0]))
+        loops = ap[0][0] in b.reach_after(ap[0][0]) and ap[0][0] not in b.reach_after(fz[0][0])
+        ok = whole and same_item and loops
+    cx.ob("R6", "R6/concat", ok, f, "concat: for every (uuid, reader) of every input: add_pack(uuid, reader.create_stream(0, reader.size())) then finalize")
+
+
 RULES = [
     ("R1", r1_chain, 6),
     ("R2", r2_whole_file, 4),
     ("R3", r3_tail_fallback, 3),
     ("R4", r4_pack_size, 5),
     ("R5", r5_locators, 2),
+    ("R6", r6_concat, 1),
 ]
